@@ -211,3 +211,34 @@ pub fn tamper() -> Value {
     }
     json!({"violates": false, "evaluated": n})
 }
+
+/// sigv2 <path> [name=value …]: GET signed with AWS signature version 2 (header auth) per the REST authentication document:
+/// StringToSign = VERB \n Content-MD5 \n Content-Type \n Date \n CanonicalizedAmzHeaders CanonicalizedResource, where the resource
+/// carries the listed sub-resources (acl, …, torrent, …, website) sorted by name
+pub fn v2(a: &[String]) -> Value {
+    use sha1::Sha1;
+    const SUB: [&str; 22] = ["acl", "delete", "lifecycle", "location", "logging", "notification", "partNumber", "policy", "requestPayment",
+        "response-cache-control", "response-content-disposition", "response-content-encoding", "response-content-language",
+        "response-content-type", "response-expires", "torrent", "uploadId", "uploads", "versionId", "versioning", "versions", "website"];
+    let path = a[0].clone();
+    let q = pairs(&a[1..]);
+    let date = "Tue, 27 Mar 2007 19:36:42 +0000";
+    let mut res = path.clone();
+    let mut subs: Vec<&(String, String)> = q.iter().filter(|(n, _)| SUB.contains(&n.as_str())).collect();
+    subs.sort();
+    for (i, (n, v)) in subs.iter().enumerate() {
+        res.push(if i == 0 { '?' } else { '&' });
+        res.push_str(n);
+        if !v.is_empty() { res.push('='); res.push_str(v); }
+    }
+    let sts = format!("GET\n\n\n{date}\n{res}");
+    let mut m = <Hmac<Sha1> as KeyInit>::new_from_slice(SK.as_bytes()).unwrap();
+    m.update(sts.as_bytes());
+    let sig = base64_simd::STANDARD.encode_to_string(m.finalize().into_bytes());
+    let (st, calls, body) = send("GET", &path, &wire_query(&q), vec![("host".into(), "localhost".into()), ("date".into(), date.into()), ("authorization".into(), format!("AWS {AK}:{sig}"))]);
+    let ok = calls.len() == 1;
+    let mut args = vec!["sigv2".to_owned()];
+    args.extend(a.iter().cloned());
+    json!({"violates": !ok, "input": {"path": path, "query": q, "string_to_sign": sts}, "expected": "authenticated (one backend invocation)",
+           "observed": {"status": st, "backend_calls": calls, "body": body.chars().take(200).collect::<String>()}, "replay_args": args})
+}
